@@ -17,11 +17,15 @@ func init() {
 			c.floor("FILL", 3)
 			c.runSelfKey("SELFKEY", c.libPkgs()[:3], nil)
 			c.floor("SELFKEY", 3)
+			c.runStaleCopy("STALECOPY", c.libPkgs()[:3], nil)
+			c.floor("STALECOPY", 3)
 			// ARAP assembles its sparse system row by row
 			c.runRowIdx("ROWIDX", c.libPkgs()[:1], baseIn("deformation.go"))
 			c.floor("ROWIDX", 1)
 		},
 		SelfTest: []Mutation{
+			{Name: "2D decimation reads neighbours from the input mesh", File: "model2d/mesh_ops.go",
+				Old: "n1, n2, _ := vertexNeighbors(res, next)\n\t\tif len(res.Find(n1, n2)) > 0 {", New: "n1, n2, _ := vertexNeighbors(res, next)\n\t\tif len(m.Find(n1, n2)) > 0 {", Rule: "STALECOPY", Expect: "Decimate"},
 			{Name: "normal criterion ignores the keep-filter", File: "model3d/decimate.go",
 				Old: "\tif n.FilterFunc != nil && !n.FilterFunc(v.Vertex.Coord3D) {\n\t\treturn false\n\t}\n", New: "", Rule: "KEEP", Expect: "normalDecCriterion"},
 			{Name: "distance criterion asks the filter only for corners", File: "model3d/decimate.go",
